@@ -43,7 +43,8 @@ def sle_case(draw, method):
     gk = draw(st.sampled_from(['maximal', 'rank1', 'admissible', 'admissible', 'exact']))
     c = {'method': method, 'dims': dims, 'cplx': draw(st.booleans()), 'op': opk, 'kappa': draw(st.sampled_from([2.0, 10.0, 100.0])),
          'rhs': draw(st.sampled_from(['dense', 'lowrank'])), 'guess': gk, 'repeats': draw(st.integers(1, 4)),
-         'solver': draw(st.sampled_from(['solve', 'lu'])), 'seed': draw(gen.SEED)}
+         'solver': draw(st.sampled_from(['solve', 'lu'])), 'seed': draw(gen.SEED),
+         'scale_exp': draw(st.sampled_from([0, 0, 0, -6, -11, 8]))}
     if gk == 'admissible':
         r = [1] * (d + 1)
         for i in range(d - 1, 0, -1):
@@ -101,6 +102,12 @@ def build_problem(c):
         else:
             ranks = c['ranks']
         g = TT(rnd_tt(ranks))
+    sc = 10.0 ** c.get('scale_exp', 0)
+    if sc != 1.0:
+        # the solution is linear in the right-hand side: rescale rhs, exact solution and guess together
+        b, xs = b * sc, xs * sc
+        rhs = sc * rhs
+        g = sc * g
     return A, b, xs, op, rhs, g
 
 
@@ -131,6 +138,8 @@ def body(c):
         lab.add('complex')
     if d == 1:
         lab.add('order1')
+    if c.get('scale_exp', 0):
+        lab.add('rescaled')
     capped = c['method'] == 'mals' and c['max_rank'] is not None
     if capped:
         lab.add('rank_cap')
@@ -176,13 +185,13 @@ def body(c):
 
 
 def nt(labels):
-    return bool({'complex', 'multi_sweep_lowrank', 'order1', 'lu', 'rank_cap', 'guess_exact'} & set(labels))
+    return bool({'complex', 'multi_sweep_lowrank', 'order1', 'lu', 'rank_cap', 'guess_exact', 'rescaled'} & set(labels))
 
 
 SUBCHECKS = [
     Sub('als', sle_case('als'), body, nt, quick=400, thorough=3000, shards_quick=8, budget_quick=120,
         classes=['complex', 'order1', 'lu', 'guess_maximal', 'guess_rank1', 'guess_admissible', 'guess_exact', 'multi_sweep_lowrank',
-                 'op_local', 'left_overparam']),
+                 'op_local', 'left_overparam', 'rescaled']),
     Sub('mals', sle_case('mals'), body, nt, quick=400, thorough=3000, shards_quick=8, budget_quick=120,
         classes=['complex', 'lu', 'rank_cap', 'guess_maximal', 'guess_rank1', 'guess_exact', 'multi_sweep_lowrank']),
 ]
